@@ -153,7 +153,11 @@ class Env:
         self.outer = outer
         self.summaries = summaries or {}
         self.vars = {}
-        self.locals = model.local_names_of(fi.node)
+        self.globals_declared = set()
+        for n in model.walk_shallow(fi.node):
+            if isinstance(n, ast.Global):
+                self.globals_declared.update(n.names)
+        self.locals = model.local_names_of(fi.node) - self.globals_declared
         self.killed = set()      # top-level `p = maker(p)` statements
         self._changed = False
         self._rebind_kill()
@@ -170,20 +174,22 @@ class Env:
                     st.targets[0].id in self.param_vals and \
                     st.targets[0].id not in touched:
                 name = st.targets[0].id
-                others = [n for n in ast.walk(self.fi.node)
-                          if isinstance(n, ast.Name) and n.id == name and
-                          isinstance(n.ctx, ast.Store) and
-                          n is not st.targets[0]]
-                if not others:
-                    self.param_vals[name] = self.ev(st.value).copy()
-                    self.killed.add(st)
-                    continue
+                # the first top-level rebinding, before anything else
+                # mentioned the name: statements after it never see the
+                # argument object itself (later rebindings are joined in
+                # by the ordinary fixpoint)
+                self.param_vals[name] = self.ev(st.value).copy()
+                self.killed.add(st)
+                touched.add(name)
+                continue
             for n in ast.walk(st):
                 if isinstance(n, ast.Name):
                     touched.add(n.id)
 
     # -- helpers ----------------------------------------------------------
     def _get(self, name):
+        if name in self.globals_declared:
+            return Val({('global', name)})
         if name in self.param_vals:
             v = self.param_vals[name].copy()
             if name in self.vars:
@@ -203,6 +209,8 @@ class Env:
         return const()
 
     def _add(self, name, val):
+        if name in self.globals_declared:
+            return
         v = self.vars.setdefault(name, Val())
         n0 = v.size()
         v.tags |= val.tags
@@ -220,7 +228,7 @@ class Env:
         return Val(t, d, d)
 
     @staticmethod
-    def attr(val):
+    def attr(val, name=None):
         out = set()
         for t in val.tags:
             if t[0] in ('param', 'derived'):
@@ -228,7 +236,7 @@ class Env:
             elif t[0] == 'fresh':
                 out.add(FRESH)
             elif t[0] == 'self':
-                out.add(('selfattr',))
+                out.add(('selfattr', name) if name else ('selfattr',))
             elif t[0] in ('ctx', 'ctxchild'):
                 out.add(('ctxattr', t))
             elif t[0] == 'const':
@@ -273,7 +281,7 @@ class Env:
                 e.elt]
             return self.contain([self.ev(x) for x in elts])
         if isinstance(e, ast.Attribute):
-            return self.attr(self.ev(e.value))
+            return self.attr(self.ev(e.value), e.attr)
         if isinstance(e, ast.Subscript):
             base = self.ev(e.value)
             el = self.elem(base)
